@@ -376,12 +376,28 @@ def check(ctx):
                 if isinstance(a0, ast.Name):
                     from .common import reaching_assignments
 
-                    defs = reaching_assignments(prog, entry, a0.id, c)
+                    defs, work, seen_names = [], list(reaching_assignments(prog, entry, a0.id, c)), {a0.id}
+                    while work:
+                        d = work.pop()
+                        dt_ = eflow.tags(d) if isinstance(d, ast.Name) else None
+                        if isinstance(d, ast.Name) and d.id not in seen_names and (dt_ is None or f"P:{xparam}" not in dt_):
+                            sub = reaching_assignments(prog, entry, d.id, d)
+                            if len(sub) > 1:
+                                seen_names.add(d.id)
+                                work += sub
+                                continue
+                        defs.append(d)
                     ok0 = bool(defs)
+                    from .common import deref_expr
+
                     for d in defs:
-                        inv = [n for n in ast.walk(d) if isinstance(n, ast.Call) and isinstance(n.func, ast.Attribute) and n.func.attr == R.inverse.name]
+                        d_full = deref_expr(prog, entry, d)
+                        inv = [n for n in ast.walk(d_full) if isinstance(n, ast.Call) and isinstance(n.func, ast.Attribute) and n.func.attr == R.inverse.name]
                         if inv:
                             argt = eflow.tags(inv[0].args[0]) if inv[0].args else None
+                            if argt is None and inv[0].args and eflow.state_before(c) is not None:
+                                # the call sits in an expanded copy of a local's definition: evaluate it in the state at the record call
+                                argt = eflow.policy.eval(inv[0].args[0], eflow.state_before(c), eflow)
                             if argt is None or f"P:{xparam}" not in argt:
                                 ok0 = False
                         else:
